@@ -41,6 +41,9 @@ type Case struct {
 	Writer int
 	Work   [][]Q
 	Rounds int
+	// ShareExpr: goroutines that run the same query share ONE expression tree
+	// object (distinct Query values pointing at the same operator nodes).
+	ShareExpr bool
 	// Server: run through the -race `updog server` instead of in-process.
 	Server     bool
 	ServerArgs []string
@@ -157,7 +160,11 @@ func oracle(c *Case) (facts, error) {
 					}
 					continue
 				}
-				res, err := fix.Exec(idx, fix.NewQuery(q.Expr, q.GroupBy))
+				uq := fix.NewQuery(q.Expr, q.GroupBy)
+				if c.ShareExpr {
+					uq.Expr = sharedExpr(q.Expr)
+				}
+				res, err := fix.Exec(idx, uq)
 				if e := compare(wants[g][i], res, err); e != nil {
 					return fmt.Errorf("goroutine %d round %d query %d %s GROUP BY %+q: %v", g, r, i, q.Expr.String(), q.GroupBy, e)
 				}
@@ -176,6 +183,25 @@ func oracle(c *Case) (facts, error) {
 		}
 	}
 	return f, nil
+}
+
+// sharedExpr returns one updog expression object per distinct model expression.
+var sharedMu sync.Mutex
+var sharedTrees = map[string]updog.Expression{}
+
+func sharedExpr(e model.Expr) updog.Expression {
+	k := e.String()
+	sharedMu.Lock()
+	defer sharedMu.Unlock()
+	if x, ok := sharedTrees[k]; ok {
+		return x
+	}
+	if len(sharedTrees) > 5000 {
+		sharedTrees = map[string]updog.Expression{}
+	}
+	x := fix.ToUpdog(e)
+	sharedTrees[k] = x
+	return x
 }
 
 func compare(w want, res *updog.Result, err error) error {
@@ -355,6 +381,7 @@ func drawCase(t *rapid.T, maxN int, server bool) *Case {
 		c.Work = append(c.Work, w)
 	}
 	c.Rounds = rapid.IntRange(1, 4).Draw(t, "rounds")
+	c.ShareExpr = !server && rapid.Bool().Draw(t, "shareexpr")
 	if server {
 		for g := range c.Work {
 			for i := range c.Work[g] {
@@ -387,6 +414,7 @@ func cacheOracle(c *CacheCase) (int64, error) {
 	var cn struct{ hit, miss, get, put fix.Counter }
 	cache := updog.NewLRUCache(c.Cap, updog.WithCacheMetrics(&updog.CacheMetrics{CacheHit: &cn.hit, CacheMiss: &cn.miss, GetCall: &cn.get, PutCall: &cn.put}))
 	var gets, puts atomic.Int64
+	wasPut := make([]atomic.Bool, c.Keys)
 	_, errs := fanout(c.Goroutines, func(g int) error {
 		x := uint32(c.Pattern*7919 + g*104729 + 1)
 		for i := 0; i < c.OpsPer; i++ {
@@ -400,6 +428,7 @@ func cacheOracle(c *CacheCase) (int64, error) {
 					bm.AddRange(5000, 5000+uint64(x>>20))
 				}
 				cache.Put(k, bm)
+				wasPut[k].Store(true)
 				puts.Add(1)
 			} else {
 				gets.Add(1)
@@ -419,10 +448,52 @@ func cacheOracle(c *CacheCase) (int64, error) {
 			return 0, e
 		}
 	}
+	// sequential epilogue on the state the concurrent phase left behind: the
+	// single-threaded guarantees must still hold (a corrupted recency list or
+	// orphaned entries show up here even when no data race was reported)
+	if c.Cap >= 1<<22 {
+		// everything stored always fitted comfortably: nothing may be gone
+		for k := 0; k < c.Keys; k++ {
+			if wasPut[k].Load() {
+				if bm, ok := cache.Get(uint64(k)); !ok || bm == nil || !bm.Contains(uint32(k)) {
+					return 0, fmt.Errorf("after the concurrent phase key %d is gone (or wrong) although everything stored fits capacity %d", k, c.Cap)
+				}
+			}
+		}
+	}
+	for round := 0; round < 3; round++ {
+		for k := 0; k < c.Keys; k++ {
+			bm := roaring.New()
+			bm.Add(uint32(k))
+			bm.Add(uint32(9000 + round))
+			cache.Put(uint64(k), bm)
+			got, ok := cache.Get(uint64(k))
+			if bm.GetSizeInBytes()+256 <= c.Cap {
+				if !ok || !got.Equals(bm) {
+					return 0, fmt.Errorf("epilogue after the concurrent phase: Put(%d) of a %d-byte bitmap into capacity %d, then Get: hit=%v (must return the bitmap just stored)", k, bm.GetSizeInBytes(), c.Cap, ok)
+				}
+			}
+		}
+	}
+	gets.Add(int64(3*c.Keys) + wasPutGets(c, wasPut))
+	puts.Add(int64(3 * c.Keys))
 	if cn.get.N.Load() != gets.Load() || cn.put.N.Load() != puts.Load() || cn.hit.N.Load()+cn.miss.N.Load() != gets.Load() {
 		return 0, fmt.Errorf("counters get/put/hit/miss = %d/%d/%d/%d but %d Gets and %d Puts were issued", cn.get.N.Load(), cn.put.N.Load(), cn.hit.N.Load(), cn.miss.N.Load(), gets.Load(), puts.Load())
 	}
 	return cn.hit.N.Load(), nil
+}
+
+func wasPutGets(c *CacheCase, wasPut []atomic.Bool) int64 {
+	if c.Cap < 1<<22 {
+		return 0
+	}
+	var n int64
+	for k := range wasPut {
+		if wasPut[k].Load() {
+			n++
+		}
+	}
+	return n
 }
 
 func runCache(t interface{ Fatalf(string, ...any) }, c *CacheCase) {
